@@ -26,7 +26,7 @@ na = [{'property_id': pid, 'reason': CHECKS.get(pid, {}).get('na_reason', 'check
       for pid in ids if not (CHECKS.get(pid) or {}).get('claimed')]
 m = {
     'version': 1,
-    'setup_cmd': 'cd coq && coq_makefile -f _CoqProject -o Makefile && timeout 3000 make -j16 && cd ../driver && make',
+    'setup_cmd': 'cd coq && coq_makefile -f _CoqProject -o Makefile && (timeout 3000 make -k -j16 || true) && cd ../driver && make',
     'hooks': {'guard': 'WCMATCH_VERIF', 'enable': 'no source hooks: the harness monkey-patches bracex/os in its own process',
               'baseline_off_cmd': 'cd /repo && /venv/bin/python -m pytest -ra -q -p no:cacheprovider --timeout=900 --continue-on-collection-errors',
               'source_commits': [], 'add_only': True},
